@@ -278,7 +278,8 @@ def access(ex, it, o, op, name, value):
         return ("raised", type(e).__name__)
 
 
-def policy_harness(cname, k):
+def policy_harness(cname, k, first=None):
+    """first = (operation index, name index) of the first step, fixed per obligation instance only to spread the work over the pool"""
     names = NAMES[cname]
 
     def harness(ex):
@@ -299,8 +300,11 @@ def policy_harness(cname, k):
                     inst[new] = o._instance_traits()[new]
             o.on_trait_change(on_added, "trait_added")
         for step in range(k):
-            op = ["read", "write", "delete", "add_trait", "remove_trait", "write_bad"][ex.choice("op%d" % step, 6)]
-            name = names[ex.choice("name%d" % step, len(names))]
+            if step == 0 and first is not None:
+                op, name = ["read", "write", "delete", "add_trait", "remove_trait", "write_bad"][first[0]], names[first[1]]
+            else:
+                op = ["read", "write", "delete", "add_trait", "remove_trait", "write_bad"][ex.choice("op%d" % step, 6)]
+                name = names[ex.choice("name%d" % step, len(names))]
             if op == "add_trait":
                 if name in o._class_traits() and kind_of(o._class_traits()[name]) != "trait":
                     continue
@@ -425,8 +429,11 @@ def obligations(tier, build):
                               leverage="the attribute name (z3 strings)", max_paths=5000, query_timeout_ms=60000, path_wall_s=180))
     K = 2 if tier == "quick" else 3
     for cname in CLASSES:
-        obs.append(Obligation("policy/%s/k=%d" % (cname, K), policy_harness(cname, K), stubs=STUBS,
-                              bounds={"history length": K, "operations": ["read", "write", "delete", "add_trait", "remove_trait"],
-                                      "names": NAMES[cname]},
-                              leverage="choice feasibility only (concrete names)", max_paths=600000))
+        firsts = [None] if tier == "quick" else [(a, b) for a in range(6) for b in range(len(NAMES[cname]))]
+        for first in firsts:
+            obs.append(Obligation("policy/%s/k=%d%s" % (cname, K, "" if first is None else "/first=%d-%d" % first),
+                                  policy_harness(cname, K, first), stubs=STUBS,
+                                  bounds={"history length": K, "operations": ["read", "write", "delete", "add_trait", "remove_trait", "write_bad"],
+                                          "names": NAMES[cname]},
+                                  leverage="choice feasibility only (concrete names)", max_paths=600000))
     return obs
